@@ -13,7 +13,8 @@ import shutil
 
 from .. import cases
 from ..core import sha1, VERIF
-from ..run import pmap, cppcheck, run as run_cmd, base_env
+from ..run import pmap, run as run_cmd, base_env
+from ..gen._retry import cppcheck
 from ..gen import cdbgen
 from ..models import pptok
 
